@@ -23,12 +23,21 @@ class FreqWorld(EigWorld):
         self.ws = []
         self.ctx = ctx
         self.squares = {}
+        self.singular_given = False
 
     def _fresh(self, kind, A, M, ncols, herm=True):
         n = A.shape[0]
         call = len(self.calls) - 1
         mus = np.zeros(ncols, dtype=object)
         Vm = np.zeros((n, ncols), dtype=object)
+        if kind == 'eigs':
+            # precondition of the contract below (w > 0): the stiffness handed to the solver has no structurally null column; with one,
+            # ARPACK (sigma = -1, 'LM') returns the zero-frequency modes of the stiffnessless amplitudes first
+            def _nullentry(x):
+                return (isinstance(x, (int, float)) and x == 0) or (isinstance(x, Sym) and x.is_zero())
+            for j in range(n):
+                if all(_nullentry(A[r, j]) for r in range(n)):
+                    self.singular_given = True
         for i in range(ncols):
             w = self.V('w%d_%d' % (call, i))
             self.ws.append((call, i, w))
@@ -79,7 +88,11 @@ def run_freq(cfg, values=None, ctx=None):
     sort, reduced = cfg.get('sort', True), cfg.get('reduced', False)
     W = FreqWorld(V, ctx)
     K = sym_matrix('K', n, active, V, symmetric=not cfg.get('unsymmetric_K'))
-    M = sym_matrix('M', n, active, V)
+    # amplitudes with mass but without stiffness ('active_M' beyond 'active'): their mass is not coupled to the other amplitudes, such
+    # that the pairs of the stiff block are eigenpairs of the full pair as well
+    active_M = cfg.get('active_M', active)
+    extra_M = [r for r in active_M if r not in active]
+    M = sym_matrix('M', n, active_M, V, skip=[(r, q) for r in extra_M for q in active_M if q != r])
     if ctx is not None:
         # generic matrices: every entry on the active set is non-zero (a structurally null column is what 'null' means)
         for Mx in (K, M):
@@ -155,6 +168,8 @@ def run_freq(cfg, values=None, ctx=None):
         for key, want in (('which', 'LM'), ('sigma', -1.)):
             if last.get(key) != want:
                 obs.append(('solver-argument-%s' % key, Sym.lift(1), Sym.lift(0)))
+    if W.singular_given:
+        obs.append(('stiffness-handed-to-the-solver-has-no-null-column', Sym.lift(1), Sym.lift(0)))
     mus = [pr for pr in W.pairs if pr[0] == len(W.calls) - 1]
     npairs = min(ncols, len(eigvals))
     if len(eigvals) != ncols and (sort or path == 'sparse'):
@@ -280,6 +295,9 @@ def real_replay(cfg, special=None):
     M = np.zeros((n, n))
     K[np.ix_(active, active)] = Kr
     M[np.ix_(active, active)] = Mr
+    for r in cfg.get('active_M', active):
+        if r not in active:
+            M[r, r] = 1.5 + 0.25 * r        # mass without stiffness, not coupled to the other amplitudes
     import warnings
     try:
         with warnings.catch_warnings():
@@ -312,7 +330,18 @@ def real_replay(cfg, special=None):
             continue
         r = K.dot(v) - vals[i] ** 2 * M.dot(v)
         worst = max(worst, float(np.abs(r).max() / (np.abs(K.dot(v)).max() + 1e-300)))
-    return {'raised': None, 'worst_rel_residual': worst, 'freqs': [complex(x).real for x in vals[:5]]}
+    out = {'raised': None, 'worst_rel_residual': worst, 'freqs': [complex(x).real for x in vals[:5]]}
+    if 'active_M' in cfg:
+        npair = min(len(vals), vecs.shape[1])
+        scale = max([abs(complex(x)) for x in vals[:npair]] + [1e-300])
+        out['nonpositive_frequency'] = bool(any(not (complex(vals[i]).real > 1e-9 * scale) for i in range(npair) if np.abs(vecs[:, i]).max() > 0))
+        null = [r for r in range(n) if r not in active]
+        out['mode_nonzero_on_stiffnessless_amplitude'] = bool(npair and null and float(np.abs(vecs[null, :npair]).max()) > 1e-9 * float(np.abs(vecs[:, :npair]).max() + 1e-300))
+    return out
+
+
+def _real_bad(real):
+    return bool(real.get('raised') or real.get('worst_rel_residual', 0) > 1e-6 or real.get('nonpositive_frequency') or real.get('mode_nonzero_on_stiffnessless_amplitude'))
 
 
 def real_order_replay(cfg):
@@ -373,6 +402,11 @@ def configs(tier, seed):
             for active in (list(range(5)), [0, 2, 3, 5]):
                 out.append({'target': target, 'n': 6 if len(active) == 4 else 5, 'active': active, 'num': 2, 'path': 'sparse', 'sort': False, 'unsymmetric_K': True,
                             'group': '%s:sparse-unsymmetric-stiffness' % target, 'variant': 'sparse/unsymmetric-K/u=%d' % len(active)})
+            # sparse path, an amplitude WITH mass but WITHOUT stiffness (null in K only): it must be removed with the stiffnessless ones; the
+            # solver must never be handed a stiffness with a null column (zero frequencies would come back first)
+            for sort in (False, True):
+                out.append({'target': target, 'n': 6, 'active': [0, 1, 3, 4], 'active_M': [0, 1, 2, 3, 4], 'num': 2, 'path': 'sparse', 'sort': sort,
+                            'group': '%s:sparse-mass-without-stiffness' % target, 'variant': 'sparse/mass-without-stiffness/n=6/u=4/sort=%d' % sort})
             # the sort keys are ROUNDED values: two returned frequencies, the rounding modelled (fresh integer within 1/2)
             out.append({'target': target, 'n': 5, 'active': [1, 3], 'num': 2, 'path': 'dense', 'sort': True, 'rounding': True,
                         'group': '%s:dense-sorted-rounded-keys' % target, 'variant': 'dense/num=2/n=5/u=2/sort=1/rounded-keys'})
@@ -404,7 +438,7 @@ def main():
     run.assume('matrix entries on the active set are non-zero reals (sums of entries may vanish)', 'ARPACK/LAPACK contract: K_p v = mu M_p v (eigs) resp. -M_p v = nu K_p v (eig) on the matrices passed; mu = w^2, nu = -1/w^2 with w > 0 (positive definite pair)',
                'rounding inside the sort key is modelled (fresh integer within 1/2 of the argument) in the rounded-keys configurations (two returned values), the identity elsewhere', 'reduced_dof presupposes three amplitudes per term, all active')
     run.stubs = ['scipy.sparse.linalg.eigs', 'scipy.linalg.eig', 'sqrt of a solver eigenvalue -> its registered root', 'msg']
-    run.outside = ['ARPACK numerics/ordering before sort', 'complex eigenvalues (aerodynamic matrices)', 'sizes above 9', 'agreement of sparse and dense numerical results']
+    run.outside = ['ARPACK numerics/ordering before sort', 'complex eigenvalues (aerodynamic matrices)', 'sizes above 9', 'agreement of sparse and dense numerical results', 'dense path with an amplitude that has mass but no stiffness (the dense route detects null amplitudes from M alone; K is then singular and outside the statement: K positive definite on the active amplitudes)', 'mass without stiffness coupled to the other amplitudes (the stiff block is then not an invariant subspace of the pair)']
     res = pmap(job, cf)
     for r in res:
         cfg = r['cfg']
@@ -437,10 +471,10 @@ def main():
             # concrete matrices for the replay: generic, then the special shapes a symbolic path may stand for
             for special in [special, 'tiny-mass', 'tiny-stiffness']:
                 real = real_replay(cfg, special)
-                if real.get('raised') or real.get('worst_rel_residual', 0) > 1e-6:
+                if _real_bad(real):
                     break
             rep = {'cfg': cfg, 'failed': [s['name'] for s in sats][:12], 'model': sats[0]['model'], 'real_function': real}
-            if real.get('raised') or real.get('worst_rel_residual', 0) > 1e-6:
+            if _real_bad(real):
                 run.violation('%s/%s' % (cfg['group'], '+'.join(fam)), '%s %s: %s fail; real function%s: %s' % (
                     cfg['target'], cfg['variant'], fam, {'zero-column-sum': ' with a positive definite M one of whose columns sums to zero', 'tiny-mass': ' with one amplitude of tiny, non-zero mass (row and column scaled by 1e-10)', 'tiny-stiffness': ' with the stiffness matrix scaled by 1e-10'}.get(special, ''), real), rep)
             else:
